@@ -50,7 +50,7 @@ if prog.get("fds") is not None:
             keep.append(s)
             fd = s.fileno()
         os.set_inheritable(fd, bool(spec["inheritable"]))
-        if spec.get("dup_to"):
+        if spec.get("dup_to") and spec["dup_to"] != fd:
             try:
                 os.close(spec["dup_to"])
             except OSError:
@@ -111,18 +111,18 @@ if ini:
         except BaseException as e:
             results.append(["exc", type(e).__name__, [c.__name__ for c in type(e).__mro__]])
         if ini["gaps"] and i in ini["gaps"]:
-            time.sleep((ini["timeout"] or 0) * 4 + 0.05)
+            time.sleep((ini["timeout"] * 4 if ini["timeout"] and ini["timeout"] < 1 else 0) + 0.05)
         if reusable and i in ini.get("resize_at", []):
             try:
                 ex = get_reusable_executor(**dict(kw, max_workers=ini["workers"] + 1 + i % 2))
             except BaseException as e:
                 results.append(["resize_exc", type(e).__name__, [c.__name__ for c in type(e).__mro__]])
     broke = None
-    if ini["fail_on"]:
+    if ini["fail_on"] and not (reusable and ini.get("resize_at")):
         # a worker whose initializer failed leaves; once it has, the pool must refuse work with the broken-pool error
         t0 = time.time()
         broke = False
-        while time.time() - t0 < 15:
+        while time.time() - t0 < 8:
             spawns = open(counter).read().split() if os.path.exists(counter) else []
             if len(spawns) <= min(ini["fail_on"]):
                 break                      # the failing spawn index was never reached
